@@ -526,3 +526,36 @@ def comparisons(func, expand=True):
         elif t.k == "call" and re.search(r"Partial(Ord|Eq)::(lt|le|gt|ge|eq|ne)$", t.callee_path() or ""):
             add(sl.x.call_expr(blk.i, t, sl.x.depth), blk.i)
     return out
+
+
+def value_defs(slicer, name):
+    """the values a named local can hold, one per definition: [(expr, bb)].  Looks through a tuple destructuring
+    `let (a, b) = if c { (x1, y1) } else { (x2, y2) };` (the local is field k of a temporary that is assigned one tuple per arm)."""
+    body = slicer.body
+    defs = [(e, bb) for (proj, e, bb) in slicer.var_defs().get(name, []) if proj == ""]
+    if len(defs) == 1 and defs[0][0][0] == "tmp" and re.match(r"^\.\d+$", defs[0][0][2] or ""):
+        k = int(defs[0][0][2][1:])
+        out = []
+        for (bb, idx, kind) in body.defs().get(defs[0][0][1], []):
+            if idx == "term" or kind != "whole":
+                return defs
+            rv = body.blocks[bb].stmts[idx].rv
+            if rv.k == "aggr" and rv.j.get("ak") == "tuple" and k < len(rv.ops):
+                out.append((slicer.x.operand(rv.ops[k]), bb))
+            else:
+                return defs
+        if len(out) >= 2:
+            return out
+    return defs
+
+
+def held_variants(facts, subject_pred):
+    """variant names the subject (subject_pred(expr) -> bool) is known to have at this point: ['A'] under a `A => ..` arm, ['A', 'B'] under an
+    or-pattern arm `A | B => ..`; [] when nothing is known"""
+    out = []
+    for (a, t) in facts:
+        if a[0] == "variant" and t and subject_pred(a[1]):
+            out.append(a[2])
+        elif a[0] == "variant_in" and t and subject_pred(a[1]):
+            out.extend(a[2])
+    return sorted(set(out))
